@@ -65,7 +65,12 @@ macro_rules! dim {
             && ls(pa.to_vec()) == want(&|i| a[i]) && lp($P::from_vec(va)) == want(&|i| a[i])
             && pa.dot(vb) as i128 == dot_w && lp($P::<$t>::origin()) == want(&|_| 0)
             && lp(pa.mul_element_wise(pb)) == want(&|i| a[i] * b[i]) && lp(pa.div_element_wise($P::from_vec(vd))) == want(&|i| a[i] / d[i])
-            && lp(pb + (pa - pb)) == want(&|i| a[i]),
+            && lp(pb + (pa - pb)) == want(&|i| a[i])
+            && lp(pb.midpoint(pa)) == want(&|i| b[i] + (a[i] - b[i]) / 2)
+            && lp($P::centroid(&[pa, pb, pa])) == want(&|i| (a[i] + b[i] + a[i]) / 3)
+            && lp($P::centroid(&[pa])) == want(&|i| a[i])
+            && { let mut m = pa; m -= vb; lp(m) == want(&|i| a[i] - b[i]) }
+            && { let mut m = pa; m += vb; lp(m) == want(&|i| a[i] + b[i]) },
             || format!("{}<{}> point ops a={:?} b={:?} k={} (p/k={:?})", stringify!($P), tn, &a[..$n], &b[..$n], k, lp(pa / c(k))));
     }};
 }
